@@ -69,7 +69,7 @@ def features_of(spec, root, ref):
     return f
 
 
-def run_build_case(rng, res: CaseResult, props, feat=None, inject=None, extra_steps=None, after=None, parameter_mode=True, spec_root=None):
+def run_build_case(rng, res: CaseResult, props, feat=None, inject=None, extra_steps=None, after=None, parameter_mode=True, spec_root=None, name_mode_twins=False):
     """one generated spec: build (+deps), compare with the reference; violations for `props` only.
     `after(lab, ref, spec, root, result_steps, res)` can add property specific checks on the same lab."""
     if spec_root is not None:
@@ -84,11 +84,17 @@ def run_build_case(rng, res: CaseResult, props, feat=None, inject=None, extra_st
             res.count('inject_not_applicable')
             return None
     ref = Ref(spec, root, parameter_mode=parameter_mode)
+    twin_names_only = False
     if not parameter_mode:
         # name mode shares one task object between all mounts of one config file (results are addressed by config name): such trees are outside
         seen_fp = set()
         for (ns_, file_, part_) in ref.instances:
             if (file_, part_) in seen_fp:
+                if name_mode_twins and not inject:
+                    # the mounts share their task objects (one input binding for both, one value): only the SET OF TASK NAMES of a chain that
+                    # could be built is well defined and compared
+                    twin_names_only = True
+                    break
                 res.count('name_mode_rejects_same_file_twice')
                 return None
             seen_fp.add((file_, part_))
@@ -105,6 +111,14 @@ def run_build_case(rng, res: CaseResult, props, feat=None, inject=None, extra_st
             return None
         st = r['steps']
         witness = {'spec': spec, 'root': root, 'inject': injected}
+        if twin_names_only:
+            if ref.error is None and st[0]['ok']:
+                res.count('name_mode_twin_mounts')
+                got_, want_ = set(st[0]['snapshot']['tasks']), set(ref.tasks)
+                if got_ != want_ and 'C08' in props:
+                    res.violate(f'name mode, one config mounted under two namespaces: task names differ: only in chain {sorted(got_ - want_)}, only in reference '
+                                f'{sorted(want_ - got_)}', witness=witness, facts={'tag': 'names'})
+            return None
         disc = compare_build(ref, st[0], parameter_mode)
         if ref.error is None and st[0]['ok'] and st[1]['ok'] and set(st[0]['snapshot']['tasks']) == set(ref.tasks):
             disc += compare_closures(ref, st[0], st[1])
